@@ -3,12 +3,28 @@
 #include <stdio.h>
 #include <stdlib.h>
 #include <string>
+#include <string.h>
 using namespace asl;
 static std::string unhex(const char* h) { std::string r; if (h[0] == '-') return r; for (size_t i = 0; h[i] && h[i + 1]; i += 2) { char b[3] = { h[i], h[i + 1], 0 }; r.push_back((char)strtoul(b, 0, 16)); } return r; }
 // reference: number of code points the way the iteration defines them (lead byte decides, truncated tail counts once per lead)
 int main(int argc, char** argv)
 {
 	if (argc < 3) return 2;
+	if (std::string(argv[1]) == "value") {   // value <code point>: standard encodings and round trips on the real library
+		int c = atoi(argv[2]); int in[2] = { c, 0 }; char u8[8]; int back[4]; wchar_t w[4]; char u8b[8];
+		int n = utf32toUtf8(in, u8, 1);
+		unsigned char e[4]; int len = c < 0x80 ? 1 : c < 0x800 ? 2 : c < 0x10000 ? 3 : 4;
+		if (len == 1) e[0] = c; else if (len == 2) { e[0] = 0xC0 | (c >> 6); e[1] = 0x80 | (c & 63); } else if (len == 3) { e[0] = 0xE0 | (c >> 12); e[1] = 0x80 | ((c >> 6) & 63); e[2] = 0x80 | (c & 63); }
+		else { e[0] = 0xF0 | (c >> 18); e[1] = 0x80 | ((c >> 12) & 63); e[2] = 0x80 | ((c >> 6) & 63); e[3] = 0x80 | (c & 63); }
+		if (n != len || memcmp(u8, e, len)) { printf("REPRODUCED utf32toUtf8(U+%04X) is not the standard encoding\n", c); return 1; }
+		if (utf8toUtf32(u8, back, n) != 1 || back[0] != c) { printf("REPRODUCED utf8toUtf32(utf8(U+%04X)) = U+%04X\n", c, back[0]); return 1; }
+		int nw = utf8toUtf16(u8, w, n); int nb = utf16toUtf8(w, u8b, nw);
+		if (nb != n || memcmp(u8, u8b, n)) { printf("REPRODUCED UTF-8 -> UTF-16 -> UTF-8 of U+%04X changes the text\n", c); return 1; }
+		String s(u8, n); String::Enumerator it = s.all(); int code = *it;
+		if (code != c || it.n != n) { printf("REPRODUCED iteration over U+%04X yields U+%04X, n=%d\n", c, code, it.n); return 1; }
+		if (s.count() != 1) { printf("REPRODUCED count() of U+%04X = %d\n", c, s.count()); return 1; }
+		printf("OK U+%04X\n", c); return 0;
+	}
 	std::string cmd = argv[1], c = unhex(argv[2]);
 	// exact-size heap copy so that ASan sees any read past the terminator
 	char* exact = (char*)malloc(c.size() + 1); memcpy(exact, c.data(), c.size()); exact[c.size()] = 0;
